@@ -52,6 +52,8 @@ func main() {
 			o = sat.HTTP(*seed, *n)
 		case "helpers":
 			o = sat.Helpers(*seed, *n)
+		case "messages":
+			o = sat.Messages(*seed, *n)
 		default:
 			fmt.Fprintln(os.Stderr, "unknown family", *family)
 			os.Exit(2)
